@@ -67,7 +67,9 @@ func main() {
 		if len(os.Args) > 3 {
 			tier = os.Args[3]
 		}
-		os.Exit(check(os.Args[2], tier, false, ""))
+		// GOVC_FILTER: only the contracts whose function key contains this substring (used by `./check --replay`); the
+		// clause lock is not compared and no evidence is written for a filtered run
+		os.Exit(check(os.Args[2], tier, false, os.Getenv("GOVC_FILTER")))
 	case "lock":
 		os.Exit(check(os.Args[2], "quick", true, ""))
 	case "vc":
@@ -411,10 +413,18 @@ func check(prop, tier string, writeLock bool, filter string) int {
 	sort.Strings(names)
 	// returns recorded as unreachable under the precondition (defensive code) in the committed lock
 	deadLocked := map[string]bool{}
+	// ... counted per function, so that an edit that renumbers the returns of a function does not turn a return that was
+	// always unreachable under the precondition (defensive code) into an alarm
+	deadAllowed := map[string]int{}
+	deadUsed := map[string]int{}
 	if b, err := os.ReadFile(lockPath); err == nil {
 		for _, l := range strings.Split(string(b), "\n") {
 			if strings.HasSuffix(l, " !dead") {
-				deadLocked[strings.TrimSuffix(l, " !dead")] = true
+				n := strings.TrimSuffix(l, " !dead")
+				deadLocked[n] = true
+				if i := strings.Index(n, "#cover:reach"); i >= 0 {
+					deadAllowed[n[:i]]++
+				}
 			}
 		}
 	}
@@ -453,6 +463,13 @@ func check(prop, tier string, writeLock bool, filter string) int {
 	var violLines []string
 	knownPrinted := map[string]bool{}
 	var knownNames []string
+	unsatReach := map[string]int{}
+	for _, o := range obls {
+		if o.WantSat && strings.HasPrefix(o.Name, "cover:reach") && o.Result != nil && o.Result.Status == "unsat" {
+			unsatReach[o.Func]++
+		}
+	}
+	_ = deadUsed
 	for _, o := range obls {
 		full := o.Func + "#" + o.Name
 		r := o.Result
@@ -461,6 +478,9 @@ func check(prop, tier string, writeLock bool, filter string) int {
 		ok := false
 		if o.WantSat {
 			ok = r.Status == "sat" || r.Status == "unknown" || r.Status == "timeout"
+			if !ok && strings.HasPrefix(o.Name, "cover:reach") && unsatReach[o.Func] <= deadAllowed[o.Func] {
+				deadLocked[full] = true
+			}
 			if !ok && strings.HasPrefix(o.Name, "cover:reach") && (deadLocked[full] || writeLock || tier == "debug") {
 				// a return that is unreachable under the precondition on the unchanged tree too (defensive code): recorded in the lock
 				ok = true
